@@ -191,3 +191,49 @@ def _errors(r):
             if m.get("reason") == "compiler-message" and m["message"].get("level") == "error":
                 out.append(m["message"].get("rendered", "")[:1500])
     return "\n".join(out[:5]) + "\n" + r.stderr[-2000:]
+
+
+# ----------------------------------------------------------------------------- E4 corpus (generated code)
+
+CORPUS_SRC = os.path.join(VERIF, "corpus", "src", "lib.rs")
+
+
+def ensure_corpus_facts(verbose=False):
+    """Compiles /verif/corpus (dfir_syntax! programs, never run) against the repository copy under analysis with the mirfacts driver and
+    returns the fact file. The generated tick closures are coroutines and are dumped from `mir_built`."""
+    ensure_driver()
+    d = os.path.join(WORK, "corpus")
+    os.makedirs(os.path.join(d, "src"), exist_ok=True)
+    shutil.copy(CORPUS_SRC, os.path.join(d, "src", "lib.rs"))
+    with open(os.path.join(d, "Cargo.toml"), "w") as f:
+        f.write('[package]\nname = "verif_corpus"\nversion = "0.0.0"\nedition = "2024"\npublish = false\n\n[workspace]\n\n[dependencies]\n'
+                'dfir_rs = { path = "%s/dfir_rs" }\n' % REPO)
+    shutil.copy(os.path.join(REPO, "Cargo.lock"), os.path.join(d, "Cargo.lock"))
+    out = os.path.join(WORK, "facts-corpus")
+    os.makedirs(out, exist_ok=True)
+    env = _env()
+    env["MIRFACTS_OUT"] = out
+    env["MIRFACTS_CRATES"] = "verif_corpus"
+    env["CARGO_TARGET_DIR"] = os.path.join(WORK, "tgt-corpus")
+    lock = open(os.path.join(WORK, "corpus.lock"), "w")
+    fcntl.flock(lock, fcntl.LOCK_EX)
+    try:
+        for f in glob.glob(os.path.join(out, "verif_corpus-*.json")):
+            os.remove(f)
+        # force re-analysis of the corpus crate itself (its inputs include the proc-macro expansion by the repository's dfir_lang)
+        fp = os.path.join(env["CARGO_TARGET_DIR"], "debug", ".fingerprint")
+        for x in glob.glob(os.path.join(fp, "verif_corpus-*")):
+            shutil.rmtree(x, ignore_errors=True)
+        t0 = time.time()
+        r = subprocess.run(["cargo", "+nightly", "check", "--offline", "--message-format=json"], cwd=d, env=env, capture_output=True, text=True)
+        if r.returncode != 0:
+            raise InfraError("the corpus does not compile against this tree (exit %d):\n%s" % (r.returncode, _errors(r)))
+        files = sorted(glob.glob(os.path.join(out, "verif_corpus-*.json")))
+        if not files:
+            raise InfraError("no fact file for the corpus")
+        if verbose:
+            print("corpus facts (%.1fs)" % (time.time() - t0), file=sys.stderr)
+        return files
+    finally:
+        fcntl.flock(lock, fcntl.LOCK_UN)
+        lock.close()
